@@ -710,7 +710,10 @@ func c16FEPRun(c c16FEPCase) (verdict, inconcl string) {
 			idleSince = time.Time{}
 		}
 		if time.Now().After(deadline) {
-			mu.Lock(); lp, _ := cur.GetLastProcessedBlock(bg); inconcl = fmt.Sprintf("node did not reach quiescence within 120s (FEP mode): script step %d/%d, parked polls %d, tip %d, last processed %d, case %+v", step, len(c.Gaps), parked, lat, lp, c); mu.Unlock()
+			mu.Lock()
+			lp, _ := cur.GetLastProcessedBlock(bg)
+			inconcl = fmt.Sprintf("node did not reach quiescence within 120s (FEP mode): script step %d/%d, parked polls %d, tip %d, last processed %d, case %+v", step, len(c.Gaps), parked, lat, lp, c)
+			mu.Unlock()
 			break
 		}
 		time.Sleep(500 * time.Microsecond)
